@@ -362,7 +362,9 @@ _CMP = {ast.LtE: 'Nat.leb %(a)s %(b)s', ast.Lt: 'Nat.ltb %(a)s %(b)s', ast.GtE: 
 def item_sensor_loop(repo, out):
     """_shorten_key (first prefix IN VIEW ORDER that fits, '' when none does) and the sensor-collection loop of
     TelstateDataSource.__init__: which keys are sensors (key type), the rank expression and the comparison that
-    decides whether a key replaces the entry of the same sensor name."""
+    decides whether a key replaces the entry of the same sensor name.  sn_type_through_view: the type of the (full) key
+    is asked of the VIEW (which resolves the full key through its prefixes once more, the behaviour before the repair
+    of finding F-C18x-1) rather than of the root namespace; the getter must read from the same object."""
     tree = _parse(repo, REL)
     what = '_shorten_key'
     fn = _func(tree, what, REL)
@@ -388,7 +390,10 @@ def item_sensor_loop(repo, out):
     loop = loops[0]
     i = init.body.index(loop)
     before = [_u(s) for s in init.body[:i]]
-    if before[-2:] != ['sensors={}', 'namespace_ranks={}'] or 'sensors' in ''.join(before[:-2]):
+    has_root = before[-1:] == ['root=telstate.root()']
+    if has_root:
+        before = before[:-1]
+    if before[-2:] != ['sensors={}', 'namespace_ranks={}'] or 'sensors' in ''.join(before[:-2]) or 'root=' in ''.join(before):
         raise TranslateError('%s: the loop does not start from empty `sensors` and `namespace_ranks`' % what)
     if _u(init.body[i + 1]) != 'metadata=AttrsSensors(telstate,sensors)':
         raise TranslateError('%s: the table is not handed to AttrsSensors right after the loop' % what)
@@ -397,8 +402,10 @@ def item_sensor_loop(repo, out):
     if len(loop.body) != 1 or not isinstance(loop.body[0], ast.If) or loop.body[0].orelse:
         raise TranslateError('%s: loop body is not one `if key_type ...:`' % what)
     kt = loop.body[0]
-    m = _match(r'telstate\.key_type\(key\)(==|!=)katsdptelstate\.KeyType\.([A-Z]+)', _u(kt.test), what + ' key type test')
-    type_eq, type_name = m.group(1) == '==', m.group(2)
+    m = _match(r'(telstate|root)\.key_type\(key\)(==|!=)katsdptelstate\.KeyType\.([A-Z]+)', _u(kt.test), what + ' key type test')
+    where, type_eq, type_name = m.group(1), m.group(2) == '==', m.group(3)
+    if (where == 'root') != has_root or _u(init).count('root=') != int(has_root):
+        raise TranslateError('%s: `root` is not `telstate.root()` taken right before the loop' % what)
     if len(kt.body) != 2 or _u(kt.body[0]) != 'sensor_name=_shorten_key(telstate,key)':
         raise TranslateError('%s: the sensor name is not `_shorten_key(telstate, key)`' % what)
     ne = kt.body[1]
@@ -431,10 +438,11 @@ def item_sensor_loop(repo, out):
     else:
         raise TranslateError('%s: the replacement test does not compare rank with namespace_ranks.get(sensor_name, ...): %s'
                              % (what, _u(cmp_.test)))
-    if [_u(s) for s in cmp_.body] != ['namespace_ranks[sensor_name]=rank', 'sensors[sensor_name]=TelstateSensorGetter(telstate,key)']:
+    if [_u(s) for s in cmp_.body] != ['namespace_ranks[sensor_name]=rank', 'sensors[sensor_name]=TelstateSensorGetter(%s,key)' % where]:
         raise TranslateError('%s: a replacing key does not record its rank and its getter' % what)
     out.append('Definition sk_reversed : bool := %s.' % _bool(it != 'telstate.prefixes'))
     out.append('Definition sk_nomatch : string := %s.' % coq_string(nomatch))
+    out.append('Definition sn_type_through_view : bool := %s.' % _bool(where == 'telstate'))
     out.append('Definition sn_key_type : string := %s.' % coq_string(type_name))
     out.append('Definition sn_key_type_eq : bool := %s.' % _bool(type_eq))
     out.append('Definition sn_replaces (rank old : nat) : bool := (%s)%%nat.' % expr)
